@@ -10,12 +10,13 @@ pub mod c23;
 pub mod c24;
 pub mod c24_table;
 pub mod common;
+pub mod determ;
 pub mod edit;
 pub mod edits;
 pub mod small;
 
 pub fn all_ids() -> Vec<&'static str> {
-    vec!["C01", "C02", "C03", "C06", "C07", "C08", "C09", "C10", "C11", "C12", "C13", "C14", "C15", "C21", "C22", "C23", "C24", "C25", "C26", "C28", "C29", "C30"]
+    vec!["C01", "C02", "C03", "C04", "C05", "C06", "C07", "C08", "C09", "C10", "C11", "C12", "C13", "C14", "C15", "C21", "C22", "C23", "C24", "C25", "C26", "C28", "C29", "C30"]
 }
 
 pub fn get(id: &str) -> Option<Box<dyn Driver>> {
@@ -23,6 +24,8 @@ pub fn get(id: &str) -> Option<Box<dyn Driver>> {
         "C01" => Box::new(c01::RoundTrip { content: false }),
         "C02" => Box::new(c01::RoundTrip { content: true }),
         "C03" => Box::new(c03::ParseNoPanic),
+        "C04" => Box::new(determ::Deterministic),
+        "C05" => Box::new(determ::Reencode),
         "C06" => Box::new(edits::c06()),
         "C07" => Box::new(edits::c07()),
         "C08" => Box::new(edits::c08()),
